@@ -23,6 +23,9 @@ GAUSS_CORR = ["kfc", "ukfc"]
 PART = [("draw", "boot"), ("gpfkf", "gpfc"), ("gpfkf", "boot")]
 CONFIGS = [(p, c) for p in GAUSS_PRED for c in GAUSS_CORR] + PART
 NAMES = ["prediction", "state", "exogenous", "correction", "all"]
+# DrawParticles(state_model, exogenous_model): a configuration *with* an exogenous model (the caller supplied one)
+DRAW2 = ("draw2", "boot")
+DRAW2_KEY = "drawparticles-two-arg-ctor:exogenous-model-never-attached"
 UNKNOWN = ["~", "Prediction", "predict", "states", "stat", "exo", "ALL", "al", "corrections", "predictionstate", "none"]
 
 
@@ -123,6 +126,9 @@ def check_line(line, hout, dout, stats, notes):
     bad = []
     spec = SpecState(exo)
     never_p = "fxexo" if exo else "fx"
+    if pk == "draw2":
+        # whether the supplied exogenous input is applied at all is not C13's business: restore = behaviour before any command
+        never_p = sorted(labset(ht[0].split("/")[2]))[0]
     prev = None
     br = stats.setdefault("branches", {})
 
@@ -196,6 +202,12 @@ def check_line(line, hout, dout, stats, notes):
         stats.setdefault("states", set()).add((pk, exo, mparts[1], mparts[3]))
     if not bad and hout == dout:
         stats["identical"] = stats.get("identical", 0) + 1
+    if pk == "draw2":
+        if hout != dout:
+            notes.append((line, -1, hout[:120], dout[:120]))
+        # every deviation on this configuration has one root cause: one stable key
+        bad.sort(key=lambda kw: 0 if kw[0].startswith("skip-throws") else 1)
+        bad = [(DRAW2_KEY, "DrawParticles(state_model, exogenous_model) — the supplied exogenous model is never attached to the state model: " + w) for (k, w) in bad]
     return bad
 
 
@@ -213,8 +225,8 @@ def prefix_for(exo, s, e, c):
 def exhaustive_cases(seed):
     cases = []
     idx = 0
-    for (pk, ck) in CONFIGS:
-        for exo in (False, True):
+    for (pk, ck) in CONFIGS + [DRAW2]:
+        for exo in ((True,) if pk == "draw2" else (False, True)):
             states = [(s, e, c) for s in (0, 1) for e in ((0, 1) if exo else (0,)) for c in (0, 1)]
             cmds = ["F:%s:%d" % (n, b) for n in NAMES + UNKNOWN for b in (0, 1)]
             cmds += ["P:%s:%d" % (n, b) for n in NAMES + UNKNOWN[:3] for b in (0, 1)]
@@ -242,8 +254,8 @@ def random_cases(g, count, maxlen):
     r = g.r
     cases = []
     for i in range(count):
-        pk, ck = r.choice(CONFIGS)
-        exo = r.random() < 0.5
+        pk, ck = r.choice(CONFIGS + [DRAW2]) if r.random() < 0.08 else r.choice(CONFIGS)
+        exo = True if pk == "draw2" else r.random() < 0.5
         L = r.randint(1, maxlen)
         ops = []
         for _ in range(L):
